@@ -22,10 +22,20 @@ class Stalled(Exception):
     """run_until_complete would block forever: nothing ready, nothing scheduled."""
 
 
+class Livelock(Exception):
+    """The loop ran LIVELOCK_LIMIT iterations without virtual time advancing: some task spins without
+    ever waiting (e.g. a retry loop whose sleep became 0).  Real time would advance a little on every
+    turn; virtual time cannot, so the run is cut off and reported instead of never ending."""
+
+
+LIVELOCK_LIMIT = 20000
+
+
 class _VSelector(selectors.BaseSelector):
     def __init__(self):
         self._keys = {}
         self.loop = None
+        self._spin = 0
 
     def register(self, fileobj, events, data=None):
         key = selectors.SelectorKey(fileobj, fileobj if isinstance(fileobj, int) else fileobj.fileno(), events, data)
@@ -45,6 +55,12 @@ class _VSelector(selectors.BaseSelector):
             raise Stalled()
         if timeout > 0:
             self.loop._vt += timeout
+            self._spin = 0
+        else:
+            self._spin += 1
+            if self._spin > LIVELOCK_LIMIT:
+                self._spin = 0
+                raise Livelock(self.loop.ticks)
         return []
 
     def close(self):
@@ -341,7 +357,7 @@ def run(main_factory, timeout_ticks=None):
             if pending:
                 try:
                     loop.run_until_complete(asyncio.gather(*pending, return_exceptions=True))
-                except Stalled:
+                except (Stalled, Livelock):
                     pass
         finally:
             asyncio.set_event_loop(None)
